@@ -23,7 +23,8 @@ def written_files(run, tier):
     d = env.subdir('c02w')
     combos = [((9, 10, 70), 32, (4, 4, -1)), ((9, 6, 20), 32, (8, 8, 16)), ((18, 17, 9), 32, (16, 16, 4)),
               ((5, 9, 130), 16, (4, 4, -1)), ((6, 5, 300), 8, (4, 4, -1)),
-              ((37, 20, 9), 8, (16, 64, 4)), ((70, 19, 6), 8, (64, 16, 4)), ((13, 10, 40), 32, (4, 8, 32))]        # z-slice layouts that are not square, two block rows
+              ((37, 20, 9), 8, (16, 64, 4)), ((70, 19, 6), 8, (64, 16, 4)), ((13, 10, 40), 32, (4, 8, 32)),        # z-slice layouts that are not square, two block rows
+              ((9, 130, 6), Fr(1, 2), (64, 256, 4))]      # a z-slice layout at a rate below one bit per voxel
     if tier == 'thorough':
         combos += [((10, 9, 40), 32, (8, 4, 32)), ((9, 17, 20), 32, (4, 16, 16)),
                    ((5, 6, 600), 4, (4, 4, -1)), ((5, 6, 1100), 2, (4, 4, -1)), ((66, 65, 9), 2, (64, 64, 4)),
@@ -35,9 +36,14 @@ def written_files(run, tier):
         cube = inputs.cube(shape, run.seed + k)
         il = np.arange(shape[0]) * 2 + 100
         xl = np.arange(shape[1]) * 3 - 7
+        z0 = 0
+        if k % 2 == 1:      # the value 0 strictly inside every axis: line number 0, sample time 0.0 are ordinary coordinates
+            il = (np.arange(shape[0]) - 2) * 2
+            xl = (np.arange(shape[1]) - 3) * 3
+            z0 = -2.0 * min(shape[2] // 2, 4 if bs[2] in (-1, 4) else bs[2])
         try:
             writers.numpy_to_sgz(p, cube, writers.rate_arg(rate), bs, ilines=il, xlines=xl,
-                                 samples=np.arange(shape[2]) * 2.0)
+                                 samples=z0 + np.arange(shape[2]) * 2.0)
         except BaseException as e:
             run.notes.append(f'writer refused {shape} {rate} {bs}: {type(e).__name__}')
             continue
@@ -160,6 +166,20 @@ def check_file_calls(run, cases, per_file_budget, rng, with_extra=True):
         big = max(fc.F['n']) > 1000 or fc.F['n'][0] * fc.F['n'][1] > 3000        # long selections are slow to evaluate in TLC: fewer of them
         for op, a in readcalls.in_range_calls(fc.F, rng, min(per_file_budget, 150) if big else per_file_budget):
             calls.append((fi, op, a))
+        # coordinates equal to 0 that lie inside an axis (a window bound 0.0, line number 0)
+        F = fc.F
+        if fc.meta['dz'] and fc.meta['z0'] < 0 and (-fc.meta['z0'] / fc.meta['dz']).denominator == 1 and 0 < -fc.meta['z0'] / fc.meta['dz'] < F['n'][2]:
+            j = int(-fc.meta['z0'] / fc.meta['dz'])
+            t = readcalls.tracecount(F) - 1
+            for a in ([t, 2 * j, NONE], [t, NONE, 2 * j], [0, 0, 2 * j], [0, 2 * j, 2 * F['n'][2]], [t, 2 * j, 2 * j + 2]):
+                calls.append((fi, 'get_trace_by_coord', a))
+            if F['dim'] == 3:
+                calls.append((fi, 'read_zslice_coord', [2 * j]))
+        if F['dim'] == 3:
+            for ax, op in (('il', 'read_inline_number'), ('xl', 'read_crossline_number')):
+                s0, d0, n0 = F[ax]['s'], F[ax]['d'], F['n'][0 if ax == 'il' else 1]
+                if d0 and s0 % d0 == 0 and 0 < -s0 // d0 < n0:
+                    calls.append((fi, op, [0]))
         if with_extra:
             for item in extra_paths(run, fc, rng, max(4, per_file_budget // 20)):
                 extras.append((fi,) + item)
